@@ -94,7 +94,7 @@ Emit == cs.st.phase = "compressed" /\ cs.st.damage = "none"
 (* ---- the property's clauses hold of the specification itself ---- *)
 S == cs.st
 RoundTrip == RoundTripInv(S)
-StreamDenotes == StreamInv(S)
+StreamDenotes == StreamInv(S) /\ NullInv(S)
 SnappyTrailer == TrailerInv(S)
 Checksum == ChecksumInv(S)
 DamagedTrailerRejected == DamagedTrailerInv(S)
